@@ -1,6 +1,7 @@
 from __future__ import annotations
 
 import contextlib
+import hashlib
 import os
 import re
 import sys
@@ -46,7 +47,7 @@ def _transform_stoichiometry(
     return SymbolicFn(k, expr=v, args=free_symbols(v))
 
 
-def _codegen(name: str, model: pysbml.transform.data.Model) -> Path:
+def _codegen(name: str, model: pysbml.transform.data.Model) -> tuple[str, Path]:
     sym = SymbolicRepr()
     for key, var in model.variables.items():
         sym.variables[key] = SymbolicVariable(
@@ -77,18 +78,20 @@ def _codegen(name: str, model: pysbml.transform.data.Model) -> Path:
                 fn_name=key, expr=der, args=free_symbols(der)
             )
 
+    source = generate_mxlpy_code_from_symbolic_repr(
+        sym,
+        imports=[
+            "import math",
+            "import scipy",
+        ],
+    )
+    # One module per generated source: a model read earlier keeps its own functions
+    # (and stays picklable) when another document with the same file name is read
+    name = f"{name}_{hashlib.sha256(source.encode()).hexdigest()[:12]}"
     path = default_tmp_dir(None, remove_old_cache=False) / f"{name}.py"
     with path.open("w+") as f:
-        f.write(
-            generate_mxlpy_code_from_symbolic_repr(
-                sym,
-                imports=[
-                    "import math",
-                    "import scipy",
-                ],
-            )
-        )
-    return path
+        f.write(source)
+    return name, path
 
 
 def import_from_path(module_name: str, file_path: Path) -> Callable[[], Model]:
@@ -127,6 +130,8 @@ def read(file: Path) -> Model:
 
     """
     model = pysbml.load_and_transform_model(file)
-    out_name = valid_filename(file.stem)
-    model_fn = import_from_path(out_name, _codegen(out_name, model))
-    return model_fn()
+    out_name, path = _codegen(valid_filename(file.stem), model)
+    if (module := sys.modules.get(out_name)) is not None:
+        # Same generated source as an earlier read: reuse its module
+        return module.create_model()
+    return import_from_path(out_name, path)()
